@@ -77,7 +77,10 @@ func checkMayRun(ms []*vcase.Model, ans *vrun.Answer) (msg string, forbidden int
 // late=true additionally makes S's goroutine late to its blocking receive (single-site delay before
 // the receive in startStage, deployment of S finishing right before Y ends) so that the stop and
 // the run input are both pending when it gets there (finding K31).
-func addStopMotif(c *vcase.Case, late bool) {
+//
+// where selects the stage in which S waits for X: "starting" (wait_for), "enabling" (enabled is an
+// expression over X's output) or "deploy" (the deployment tag is an expression over X's output).
+func addStopMotif(c *vcase.Case, late bool, where string) {
 	mk := func(id string) *vcase.Step {
 		return &vcase.Step{ID: id, Kind: "plugin", Op: "op", Input: vcase.MapVal([]string{"key"}, []*vcase.Val{vcase.LitVal(vcase.StrLit(id))})}
 	}
@@ -86,7 +89,14 @@ func addStopMotif(c *vcase.Case, late bool) {
 	}
 	y, x, z, st := mk("my"), mk("mx"), mk("mz"), mk("ms")
 	z.WaitFor = outs("my")
-	st.WaitFor = outs("mx")
+	switch where {
+	case "enabling":
+		st.Enabled = vcase.ExprVal(&vcase.Expr{K: "out", Step: "mx", Stage: "outputs", Output: "success", Path: []string{"ok"}})
+	case "deploy":
+		st.DeployTag = vcase.ExprVal(&vcase.Expr{K: "out", Step: "mx", Stage: "outputs", Output: "success", Path: []string{"s"}})
+	default:
+		st.WaitFor = outs("mx")
+	}
 	st.StopIf = outs("my")
 	c.Main.Steps = append(c.Main.Steps, y, x, z, st)
 	c.Script.Steps["my"] = vplug.Behaviour{Outcome: "success", DelayMs: 5}
@@ -100,7 +110,7 @@ func addStopMotif(c *vcase.Case, late bool) {
 			}
 		}
 	}
-	c.Labels = append(c.Labels, "motif:stop-fires-before-start")
+	c.Labels = append(c.Labels, "motif:stop-fires-before-start", "motif:stop-fires-before-start/waiting-in-"+where)
 	if late {
 		if c.Script.Deploys == nil {
 			c.Script.Deploys = map[string]vplug.DeployBehaviour{}
@@ -125,9 +135,9 @@ func TestC04(t *testing.T) {
 			c := vcase.GenCase(rt, p, "C04")
 			switch rapid.IntRange(0, 11).Draw(rt, "stopmotif?") {
 			case 0, 1, 2:
-				addStopMotif(c, false)
+				addStopMotif(c, false, rapid.SampledFrom([]string{"starting", "enabling", "deploy"}).Draw(rt, "stopmotif.where"))
 			case 3:
-				addStopMotif(c, true)
+				addStopMotif(c, true, "starting")
 			}
 			return c
 		},
